@@ -551,8 +551,12 @@ func runHostile(envs []*remote.Envelope) (labels []string, nt bool, err error) {
 	invalid := 0
 	observable := func(w hwant) bool { // only the recording processers see deliveries
 		var n int
-		_, err := fmt.Sscanf(w.target.ID, "t/%d", &n)
-		return err == nil && n >= 0 && n < nTargets && w.target.ID == fmt.Sprintf("t/%d", n)
+		if _, err := fmt.Sscanf(w.target.ID, "t/%d", &n); err == nil && n >= 0 && n < nTargets && w.target.ID == fmt.Sprintf("t/%d", n) {
+			return true
+		}
+		// (the wide population w/0..39 of the C15 cases is registered on the same engine)
+		_, err := fmt.Sscanf(w.target.ID, "w/%d", &n)
+		return err == nil && n >= 0 && n < nWide && w.target.ID == fmt.Sprintf("w/%d", n)
 	}
 	total := 0
 	for ei, env := range envs {
